@@ -206,8 +206,53 @@ Definition c07_healed (c : ccfg) (its : list citer) : bool :=
       && world_eqb (nthw last 0) (rreplay (map snd (ci_bus last)))
       && negb (ci_exc last)
   end.
+(** "parked together with its progress marker": when the last handler invocation of an iteration on
+    an object raised, the oldest queue entry of that object (the one that was processed) carries
+    the marker that invocation left: (step, partial) reported by a failure after partial processing,
+    else the marker the handler was entered with.  Observation only: handler log, outcomes given to
+    the handlers, queue at the end of the iteration. *)
+Definition hkind_matches (h : hkind) (k : ekind) : bool :=
+  match h, k with
+  | HAdded, KAdded _ | HRecycled, KAdded _ | HModified, KModified _ | HRemoved, KRemoved | HTrashed, KRemoved => true
+  | _, _ => false end.
+Definition marker_ok_iter (outs : list hres) (n0 : nat) (it : citer) : bool :=
+  let calls := combine (seq n0 (length (ci_calls it))) (ci_calls it) in
+  forallb (fun ncl =>
+     let n := fst ncl in let cl := snd ncl in
+     match cl_out cl with
+     | HOk => true
+     | _ =>
+       let i := (cl_t cl, cl_k cl) in
+       if existsb (fun mcl => Nat.ltb n (fst mcl) && idq (cl_t (snd mcl), cl_k (snd mcl)) i) calls then true else
+       match List.find (fun e => idq (ce_id (oq_local e)) i) (ci_queue it) with
+       | None => true
+       | Some e =>
+           if negb (hkind_matches (cl_kind cl) (ce_kind (oq_local e))) then true else
+           let sp := match nth n outs HOk with HFailPartial s => (s, true) | _ => (cl_step cl, cl_partial cl) end in
+           Z.eqb (ce_step (oq_local e)) (fst sp) && Bool.eqb (ce_partial (oq_local e)) (snd sp)
+       end
+     end) calls.
+(** ... and an event parked without any handler invocation (queued behind its object's or its
+    child's errors) carries no progress at all: a new entry whose object saw no raising invocation
+    of that kind in the iteration has step 0 and is not partially processed *)
+Definition fresh_marker_ok_iter (prev : list Z) (it : citer) : bool :=
+  forallb (fun e =>
+     existsb (Z.eqb (oq_num e)) prev
+     || existsb (fun cl => match cl_out cl with HOk => false | _ => true end
+                           && idq (cl_t cl, cl_k cl) (ce_id (oq_local e))
+                           && hkind_matches (cl_kind cl) (ce_kind (oq_local e))) (ci_calls it)
+     || (Z.eqb (ce_step (oq_local e)) 0 && negb (ce_partial (oq_local e)))) (ci_queue it).
+Fixpoint marker_ok_iters (outs : list hres) (n0 : nat) (prev : list Z) (its : list citer) : bool :=
+  match its with
+  | [] => true
+  | it :: r => marker_ok_iter outs n0 it && fresh_marker_ok_iter prev it
+               && marker_ok_iters outs (n0 + length (ci_calls it)) (map oq_num (ci_queue it)) r
+  end.
+Definition c07_marker_case (x : ccase) : bool := marker_ok_iters (k_outcomes x) 0 [] (k_iters x).
+
 Definition c07_case (x : ccase) : bool :=
-  c07_fifo (k_cfg x) (k_iters x) && c07_complete (k_cfg x) (k_iters x) && c07_healed (k_cfg x) (k_iters x).
+  c07_fifo (k_cfg x) (k_iters x) && c07_complete (k_cfg x) (k_iters x) && c07_healed (k_cfg x) (k_iters x)
+  && c07_marker_case x.
 
 Definition c07_fifo_case (x : ccase) : bool := c07_fifo (k_cfg x) (k_iters x).
 Definition c07_complete_case (x : ccase) : bool := c07_complete (k_cfg x) (k_iters x).
